@@ -31,6 +31,20 @@ CHECKS = {
          "All ~150 spellings of an operand tuple must refine onto one memo entry with identical words; algebraic identities are relations between memo entries."),
  "C11": ("exploration", "determinism memo across build configurations + exact FMA contract; TLC trace validation of interleaved std / no_std traces",
          "The same seeded corpus is executed by a default-features and a --no-default-features build; interleaved traces must agree word for word; the cfg-selected fma (hook) is compared with RN(x*y+z) computed by the specification."),
+ "C12": ("model_checking", "rigorous ball enclosures of the mathematical constants computed in TLA+ (Machin, atanh series, Taylor, verified division / integer square root) + TLC trace validation; the finite set of constants is checked completely",
+         "All 19 consts::* and FloatConst accessors and the 7 associated constants are compared on every run with the correctly rounded double-double derived from an enclosure computed by the specification; to_degrees/to_radians are decided three-valued against an enclosure of pi on sampled operands."),
+ "C13": ("exploration", "TLA+ contracts: exact dyadic inequalities on r^2 / r^3, ball enclosure of x^|n| by binary powering; TLC trace validation",
+         "sqrt/cbrt/hypot tolerances are exact integer inequalities; powi is checked against an enclosure of x^|n| for exponents log-uniform in |n| with i32::MIN/MAX, 0, +-1 always included, the n = 0 / 1 clauses, totality (no panic) and powi(x,-n) == recip(powi(x,n)) through the memo."),
+ "C14": ("exploration", "TLA+ ball-arithmetic enclosures of exp / expm1 (Taylor with explicit remainder, enclosure of ln 2) + TLC trace validation, three-valued verdicts",
+         "Accuracy floors, exact points, saturation and the sign/parity rules of exp, exp2, exp_m1, powf are decided on stratified arguments (every lookup-table entry from both reduction sides, every range switch, tie low words); a panic is a violation on the whole valid domain."),
+ "C15": ("exploration", "TLA+ enclosure of ln by rigorous Newton steps through the exp enclosure + TLC trace validation",
+         "ln, log2, log10, ln_1p floors, exact points, domain errors and panic-freedom on 1960 binades, densely around 1 and at -1 < x; log/log10 as quotients through the memo."),
+ "C16": ("exploration", "TLA+ enclosures of sin / cos (reduction with an enclosure of pi/2) + TLC trace validation",
+         "Absolute/relative floors of sin, cos, the tan bound cross-multiplied by cos^2, sin_cos == (sin, cos) through the memo, exact points, invalid arguments."),
+ "C17": ("exploration", "monotone inversion through the sin / cos enclosures at r +- tolerance (exact end points) + TLC trace validation",
+         "asin, acos, atan, atan2 floors, branch conventions on the axes (bit-identical to the correctly rounded pi, pi/2), domain errors."),
+ "C18": ("exploration", "enclosures of exp; monotone inversion for the inverse functions + TLC trace validation",
+         "sinh, cosh, tanh, asinh, acosh, atanh floors with (x, -x) pairs at every magnitude, exact points, domain errors, panic-freedom."),
 }
 NOT_YET = {}
 def main():
